@@ -170,6 +170,25 @@ def check_signal(ctx: Ctx):
                        f"`{U(c)[:70]}` can raise the internal _SpanningDropletSignal, which is not caught here")
 
 
+def check_otsu_total(ctx: Ctx):
+    """threshold_otsu on a constant (or single-valued) image: every between-class variance is
+    0·NaN = NaN; numpy.argmax answers NaN-only input (index of the first NaN), the nan-skipping
+    variants raise ValueError('All-NaN slice encountered')"""
+    m = ctx.model
+    fi = m.func(f"{IMG}.threshold_otsu")
+    fv = view(m, fi)
+    sel = [c for c in fv.calls() if (fv.callee(c) or U(c.func)).split(".")[-1] in ("argmax", "argmin", "nanargmax", "nanargmin", "max", "nanmax")]
+    sel = [c for c in sel if (fv.callee(c) or U(c.func)).split(".")[-1].endswith(("argmax", "argmin"))]
+    site = fi.qualname + ":selection"
+    if not sel:
+        ctx.undecided("TOTAL", site, fi, "no arg-max selection found")
+        return
+    bad = [c for c in sel if (fv.callee(c) or U(c.func)).split(".")[-1].startswith("nan")]
+    ctx.decide(not bad, "TOTAL", site, (fi, (bad or sel)[0]),
+               "the bin is selected with a NaN-tolerant arg-max (a constant image makes every variance NaN; argmax still answers)",
+               f"`{U(bad[0])[:60] if bad else ''}` raises ValueError('All-NaN slice encountered') for a constant image, where every between-class variance is 0·NaN: locate_droplets(..., threshold='otsu') aborts on a valid field")
+
+
 def check(ctx: Ctx):
     ctx.explain(
         "EMPTY typestate rules at every ndimage.label caller, at filtered index lists and at the cdist call of the distance matcher; "
@@ -180,13 +199,24 @@ def check(ctx: Ctx):
     n2 = empty.check_filtered_indices(ctx)
     n3 = empty.check_cdist(ctx)
     for cname in render.RENDERERS:
-        render.check_renderer(ctx, cname, rules=("DIMGUARD",))
+        render.check_renderer(ctx, cname, rules=("DIMGUARD", "WIDTH"))
     render.check_polar(ctx, rules=("DIV0",))
     render.check_arity(ctx)
     check_grid_dispatch(ctx)
     check_threshold_dispatch(ctx)
     refine.check_pack(ctx, rules=("PACK", "FEASIBLE"))
     check_signal(ctx)
+    check_otsu_total(ctx)
+    from . import c07
+
+    # METRIC: points are Cartesian; grid.distance must be told so (non-Cartesian grids raise otherwise)
+    sub = Ctx(ctx.model, ctx.prop, ctx.tier)
+    c07.check_overlaps(sub)
+    ctx.findings.extend(f for f in sub.findings if f.rule == "METRIC")
+    ctx.functions |= sub.functions
+    ctx.expect("METRIC", 2)
+    ctx.expect("WIDTH", 4)
+    ctx.expect("TOTAL", 1)
     ctx.expect("EMPTY", 6)
     ctx.expect("ARITY", 3)
     ctx.expect("DIV0", 1)
